@@ -70,8 +70,12 @@ def check (server : Bool) (resetMax : Option Nat) (digest : String) : List Strin
     let ids := streams.map (·.id)
     let dup := ids.any fun i => (ids.filter (· == i)).length > 1
     let closed := fun (e : SEntry) => e.state.startsWith "Closed"
-    let orphan := streams.any fun e =>
+    let orphans := streams.filter fun e =>
       closed e && e.refs == 0 && !(e.flags.toList.any fun c => "scopawrS".toList.contains c) && e.buffered == 0
+    -- (how the forgotten stream had ended is part of the finding's identity)
+    let orphanKinds := (orphans.map fun e =>
+      if e.state.startsWith "Closed.EndStream" then "ended-cleanly" else if e.state.startsWith "Closed.Error.Reset" then "reset"
+      else "failed").eraseDups
     (if cw - ca ≠ sumAvail then ["C16 assigned-capacity-ledger-broken"] else []) ++
     (if streams.any (·.sendAvail < 0) then ["C16 negative-capacity-assigned"] else []) ++
     (if streams.any (fun e => closed e && e.sendAvail > 0 && e.buffered == 0) then ["C16 capacity-held-by-a-closed-stream"] else []) ++
@@ -89,7 +93,7 @@ def check (server : Bool) (resetMax : Option Nat) (digest : String) : List Strin
     (if (streams.filter fun e => !isLocal server e.id && e.refs == 0 && !has e 'r' && !has e 'a').length > maxR.toNat
       then ["C18 more-unheld-peer-streams-stored-than-the-concurrency-limit"] else []) ++
     (if dup then ["C19 two-entries-for-one-stream-id"] else []) ++
-    (if orphan then ["C19 finished-stream-still-stored"] else []) ++
+    (orphanKinds.map fun k => s!"C19 finished-stream-still-stored({k})") ++
     (if streams.isEmpty ∧ b ≠ 0 then ["C19 buffered-events-of-forgotten-streams"] else []) ++
     (if streams.isEmpty ∧ (ns ≠ 0 ∨ nr ≠ 0) then ["C19 counters-not-idle-with-empty-store"] else [])
   | _, _, _ => if digest == "gone" ∨ digest == "-" then [] else ["?? unparsed digest"]
